@@ -32,7 +32,16 @@ IntLeaves == [i \in 1..30 |-> Leaf(IntTypes[((i - 1) % 10) + 1], <<"min", "max",
 Strings == <<"", "abc", "a\"b", "back\\slash", "\\\"", "tab~000009nl~00000Acr~00000Dbs~000008ff~00000C",
              "~0000E9~0020AC~01F600", "e~000301~00200D", "~0005D0~0005D1~00202E", "~000000~00001B~00007F", "~00FEFF~002028~00FFFD",
              "# not a comment ;", "Bucket(\"x\")", "~10FFFF~00E000", "\\u0041 \\n literal", " lead and trail " >>
+\* every character the decompiler must escape (or must not), one string per character - never sampled:
+\* C0 controls 0x00-0x1F and DEL, C1 controls 0x80-0x9F, the characters with dedicated escapes (\\ \" and
+\* among the controls \n \r \t \b \f), line / paragraph separators, a lone astral character, the last scalar
+HexD == <<"0", "1", "2", "3", "4", "5", "6", "7", "8", "9", "A", "B", "C", "D", "E", "F">>
+CP8(n) == "~0000" \o HexD[(n \div 16) + 1] \o HexD[(n % 16) + 1]               \* notation of U+00nn
+SpecialChars == [n \in 1..32 |-> CP8(n - 1)] \o <<CP8(127)>> \o [n \in 1..32 |-> CP8(127 + n)]
+                \o <<"\\", "\"", "~002028", "~002029", "~01F600", "~10FFFF", "~00FFFF", "~00D7FF", "/">>
+CharStrings == [i \in 1..Len(SpecialChars) |-> "a" \o SpecialChars[i] \o "z"]
 StringLeaves == [i \in 1..Len(Strings) |-> Leaf("String", Strings[i], 0)]
+                \o [i \in 1..Len(CharStrings) |-> Leaf("String", CharStrings[i], 0)]
 DecTags == <<"zero", "one", "neg_one", "max", "min", "smallest", "neg_smallest", "frac", "big_frac">>
 PDecTags == <<"zero", "one", "neg_one", "max", "min", "smallest", "neg_smallest", "frac">>
 AddrTags == <<"account", "xrd", "nfres", "package", "component", "validator", "vault", "kvstore", "vaccount", "identity", "consensus", "pool", "locker", "accesscontroller">>
@@ -44,6 +53,18 @@ CustomLeaves ==
   [i \in 1..Len(NflTags) |-> Leaf("NonFungibleLocalId", NflTags[i], 0)] \o
   << Leaf("Expression", "ENTIRE_WORKTOP", 0), Leaf("Expression", "ENTIRE_AUTH_ZONE", 0), Leaf("Blob", "", 0), Leaf("Blob", "", 1),
      Leaf("Bool", "", 0), Leaf("Bool", "", 1) >>
+\* The variants of the manifest custom value kinds: every one of them must occur as an argument in every
+\* tier (checked by the driver on the emitted cases, using Variant below through the printed table).
+NflKind(tag) == CASE tag \in {"int0", "int1", "intmax"} -> "Integer" [] tag \in {"str", "str1", "str64"} -> "String"
+                  [] tag \in {"bytes", "bytes64"} -> "Bytes" [] OTHER -> "RUID"
+Variant(x) == CASE x.t = "Expression" -> "Expression:" \o x.s
+                [] x.t = "NonFungibleLocalId" -> "NonFungibleLocalId:" \o NflKind(x.s)
+                [] x.t = "Address" -> "Address:Static"
+                [] x.t = "NamedAddress" -> "Address:Named"
+                [] OTHER -> x.t
+RequiredVariants == {"Expression:ENTIRE_WORKTOP", "Expression:ENTIRE_AUTH_ZONE", "Address:Static", "Address:Named", "Bucket", "Proof",
+                     "AddressReservation", "Blob", "Decimal", "PreciseDecimal", "NonFungibleLocalId:Integer",
+                     "NonFungibleLocalId:String", "NonFungibleLocalId:Bytes", "NonFungibleLocalId:RUID"}
 U8(n) == Leaf("U8", "", n)
 Composites == <<
   V("Tuple", "", 0, <<>>), V("Enum", "", 0, <<>>), V("Enum", "", 255, <<>>), V("Array", "U8", 0, <<>>),
@@ -244,10 +265,15 @@ EscName(style, class, i) ==
   CASE style = "quote" -> "my \"" \o Prefix[class] \o "\" " \o ToString(i)
     [] style = "backslash" -> Prefix[class] \o "\\n" \o ToString(i)
     [] style = "newline" -> Prefix[class] \o "~00000A" \o ToString(i)
+\* ... and every special character inside object names: style "ch<i>" puts SpecialChars[i] into every name
+CharStyles == {"ch" \o ToString(i) : i \in 1..Len(SpecialChars)}
+CharOfStyle(style) == SpecialChars[CHOOSE i \in 1..Len(SpecialChars) : style = "ch" \o ToString(i)]
 Counts(st) == [buckets |-> st.nb, proofs |-> st.np, resv |-> st.nr, addrs |-> st.na, intents |-> st.ni]
 NameLists(st, style) ==
   LET c == Counts(st) IN
-  [cl \in DOMAIN Prefix |-> [i \in 1..c[cl] |-> IF style \in EscapeStyles THEN EscName(style, cl, i - 1) ELSE NameOf(style, cl, i - 1)]]
+  [cl \in DOMAIN Prefix |-> [i \in 1..c[cl] |-> IF style \in EscapeStyles THEN EscName(style, cl, i - 1)
+                                               ELSE IF style \in CharStyles THEN Prefix[cl] \o CharOfStyle(style) \o ToString(i - 1)
+                                               ELSE NameOf(style, cl, i - 1)]]
 \* names the compiled manifest must carry
 ExpectedNames(st, style) == NameLists(st, IF style = "unknown" THEN "default" ELSE style)
 
